@@ -22,9 +22,8 @@ def bounded(tier, seed):
 
 MANIFEST = dict(
     category="other",
-    text="Contract-based proof of the search-range and status clauses on the real MinGenSet.solve / MinSetCover.solve, plus a bounded stand-in: results compared with plain enumeration "
-         "(numbers from 1..9, <=4 numbers, multiplicities <=2, both weight types, lower bounds, partition constraints; set covers with universes <=5).",
+    text='Contract-based proofs on the real source: the MinGenSet ENCODER (_create_solver: every admitted assignment is a generating set of size k; symmetry breaking), the search-range and status clauses of MinGenSet.solve / MinSetCover.solve, plus a bounded stand-in: results compared with plain enumeration (numbers from 1..9, <=4 numbers, multiplicities <=2, both weight types, lower bounds, partition constraints; set covers with universes <=5).',
     design_ref="DESIGN.md section 3 / C15",
-    note="Optimality itself is decided only by the bounded comparison. Trusted: HiGHS, enumeration oracle.",
-    technique="contract-based deductive verification of the search loop (PyVC) + bounded runtime-contract check vs enumeration",
+    note='Optimality itself and the partition-constraint rows are decided only by the bounded comparison. Trusted: HiGHS, enumeration oracle.',
+    technique='contract-based deductive verification of the encoder and the search loop (PyVC) + bounded runtime-contract check vs enumeration',
     engine="pyvc+rc")
